@@ -25,6 +25,7 @@ type errSummary struct {
 	gen      errBits
 	// for functions whose first result is a boolean constant on every return: the summary per returned constant
 	hasBool    bool
+	boolIdx    int // which result is the boolean
 	tPre, fPre bool
 	tGen, fGen errBits
 }
@@ -306,8 +307,16 @@ func (f *errFlow) Edge(from *ssa.BasicBlock, succ int, s *errState) (*errState, 
 	if !ok {
 		return s, true
 	}
-	if c, ok := iff.Cond.(*ssa.Call); ok {
-		if callee := f.a.m.calleeOnBase(c, f.base); callee != nil && f.a.sum[callee].hasBool && c.Block() == from {
+	condCall, _ := iff.Cond.(*ssa.Call)
+	if ex, ok := iff.Cond.(*ssa.Extract); ok {
+		if c2, ok := ex.Tuple.(*ssa.Call); ok {
+			if callee := f.a.m.calleeOnBase(c2, f.base); callee != nil && f.a.sum[callee].hasBool && f.a.sum[callee].boolIdx == ex.Index {
+				condCall = c2
+			}
+		}
+	}
+	if c := condCall; c != nil {
+		if callee := f.a.m.calleeOnBase(c, f.base); callee != nil && f.a.sum[callee].hasBool && c.Block() == from && (iff.Cond == ssa.Value(c) && f.a.sum[callee].boolIdx == 0 || iff.Cond != ssa.Value(c)) {
 			if pre, ok := s.pre[c]; ok {
 				sm := f.a.sum[callee]
 				gen, keep := sm.tGen, sm.tPre
@@ -390,7 +399,15 @@ func buildErrAnalysis(m *vmModel) *errAnalysis {
 			fl := &errFlow{a: a, fn: fn, base: base, ent: eEntry}
 			before, _ := runForward[*errState](fn, fl)
 			var u, ut, uf errBits
-			allConst := fn.Signature.Results().Len() >= 1 && types.Identical(fn.Signature.Results().At(0).Type(), types.Typ[types.Bool])
+			boolIdx := -1 // the result that tells the caller how the function went: the first result, or else the last boolean one
+			if rs := fn.Signature.Results(); rs.Len() >= 1 {
+				if types.Identical(rs.At(0).Type(), types.Typ[types.Bool]) {
+					boolIdx = 0
+				} else if types.Identical(rs.At(rs.Len()-1).Type(), types.Typ[types.Bool]) {
+					boolIdx = rs.Len() - 1
+				}
+			}
+			allConst := boolIdx >= 0
 			for _, b := range fn.Blocks {
 				if ret, ok := b.Instrs[len(b.Instrs)-1].(*ssa.Return); ok {
 					if b == fn.Recover {
@@ -399,7 +416,7 @@ func buildErrAnalysis(m *vmModel) *errAnalysis {
 					if st, ok := before[ret]; ok {
 						u |= st.cell
 						if allConst {
-							switch constBoolResult(ret) {
+							switch constBoolResultAt(ret, boolIdx) {
 							case 1:
 								ut |= st.cell
 							case 0:
@@ -414,6 +431,7 @@ func buildErrAnalysis(m *vmModel) *errAnalysis {
 			ns := errSummary{preserve: u&eEntry != 0, gen: u &^ eEntry}
 			if allConst {
 				ns.hasBool = true
+				ns.boolIdx = boolIdx
 				ns.tPre, ns.tGen = ut&eEntry != 0, ut&^eEntry
 				ns.fPre, ns.fGen = uf&eEntry != 0, uf&^eEntry
 			}
@@ -501,11 +519,14 @@ func buildErrAnalysis(m *vmModel) *errAnalysis {
 
 // constBoolResult resolves the first result of a return to a boolean constant: 1 true, 0 false, -1 unknown.
 // Handles named results spilled to memory by defer (store to the result variable earlier in the same block).
-func constBoolResult(ret *ssa.Return) int {
-	if len(ret.Results) == 0 {
+func constBoolResult(ret *ssa.Return) int { return constBoolResultAt(ret, 0) }
+
+// constBoolResultAt: result #k of the return is the constant true (1) / false (0); -1 otherwise.
+func constBoolResultAt(ret *ssa.Return, k int) int {
+	if len(ret.Results) <= k {
 		return -1
 	}
-	v := ret.Results[0]
+	v := ret.Results[k]
 	if u, ok := v.(*ssa.UnOp); ok {
 		if al, ok := u.X.(*ssa.Alloc); ok {
 			b := ret.Block()
